@@ -514,3 +514,61 @@ func c07G6Sym(n int) {
 func H_c07_g6sym63() { c07G6Sym(63) }
 func H_c07_g6sym64() { c07G6Sym(64) }
 func H_c07_g6sym9()  { c07G6Sym(9) }
+
+// c07S6Header: sparse6 at the orders where the size header changes form (1 byte up to 62,
+// "~"+3 bytes up to 258047, "~~"+6 bytes above): the edgeless graph and the graph with the
+// single edge {n-2, n-1}, built through the library's constructor.  The expected bytes come
+// from the same reference rules as refSparse6, specialised to at most one edge.
+func c07S6Header() {
+	ns := []int{62, 63, 4095, 4096, 258047, 258048}
+	n := ns[rt.Choice("n", len(ns))]
+	withEdge := rt.Choice("edge", 2) == 1
+	g := NewSparse(n, nil)
+	if withEdge {
+		g.AddEdge(n-2, n-1)
+	}
+	want := append([]byte{':'}, refN(n)...)
+	if withEdge {
+		k := 0
+		for (1 << uint(k)) < n {
+			k++
+		}
+		var bits []byte
+		// from v = 0: (b=1, x=n-1) moves to n-1 when n-1 > 1, then (b=0, x=n-2) is the edge
+		bits = append(bits, 1)
+		bits = append(bits, refBitsOf(n-1, k)...)
+		bits = append(bits, 0)
+		bits = append(bits, refBitsOf(n-2, k)...)
+		for len(bits)%6 != 0 {
+			bits = append(bits, 1)
+		}
+		want = append(want, refPack(bits)...)
+	}
+	var t string
+	p, msg := rt.Panics(func() { t = Sparse6Encode(g) })
+	rt.Check(!p, "Sparse6Encode panicked at a header boundary: "+msg)
+	if p {
+		return
+	}
+	c07SameBytes(t, want, "sparse6 (size header boundary)")
+	var d *SparseGraph
+	var err error
+	p, msg = rt.Panics(func() { d, err = Sparse6Decode(t) })
+	rt.Check(!p, "Sparse6Decode panics on Sparse6Encode output: "+msg)
+	if p {
+		return
+	}
+	rt.Check(err == nil, "Sparse6Decode rejects Sparse6Encode output (size header boundary)")
+	if err == nil {
+		rt.Check(d.N() == n, "sparse6 round trip (size header boundary): wrong order")
+		m := 0
+		if withEdge {
+			m = 1
+		}
+		rt.Check(d.M() == m, "sparse6 round trip (size header boundary): wrong size")
+		rt.Check(d.IsEdge(n-2, n-1) == withEdge, "sparse6 round trip (size header boundary): edge lost")
+	}
+	rt.Reach("end")
+}
+
+func H_c07_s6header() { c07S6Header() }
